@@ -63,7 +63,12 @@ def parseErr : String → Option RdErr
   | "x" => some .other
   | _ => none
 
+/-- `N<k>`: the body is `http.NoBody` and the consumer reads it k times (each `(0, io.EOF)`). -/
+def parseNoBody (s : String) : Option (List ReadRes) :=
+  if s.startsWith "N" then (s.drop 1).toString.toNat?.map fun k => List.replicate k ⟨[], .eof⟩ else none
+
 def parseReads (s : String) : Option (List ReadRes) :=
+  if s.startsWith "N" then parseNoBody s else
   if s = "_" then some [] else
   (s.splitOn ";").mapM fun r =>
     match r.splitOn ":" with
@@ -85,6 +90,7 @@ structure Msg where
   id : Bytes
   hdrs : List (Bytes × Bytes)
   reads : List ReadRes
+  noBody : Bool
 
 def tsName : Bytes := strBytes ":timestamp"
 
@@ -97,6 +103,7 @@ def parseMsg (tok : String) : Option Msg :=
     let cl ← cl.toInt?
     let te ← parseTE te
     let hdr ← parseHdrs hdrs
+    let nb := reads.startsWith "N"
     let reads ← parseReads reads
     let f : Fields := { hdr := hdr, host := host, cl := cl, clText := strBytes (toString cl.toNat), te := te }
     let ps := pseudo.splitOn ","
@@ -105,13 +112,13 @@ def parseMsg (tok : String) : Option Msg :=
       | [m, sch, au, pa, qu, pr, rem] => do
         let m ← unhex m; let sch ← unhex sch; let au ← unhex au; let pa ← unhex pa
         let qu ← unhex qu; let pr ← unhex pr; let rem ← unhex rem
-        pure ⟨1, id, requestHeaders m sch au pa qu pr rem [] api f, reads⟩
+        pure ⟨1, id, requestHeaders m sch au pa qu pr rem [] api f, reads, nb⟩
       | _ => none
     else if kind = "s" then
       match ps with
       | [pr, st, reason] => do
         let pr ← unhex pr; let st ← st.toNat?; let reason ← unhex reason
-        pure ⟨2, id, responseHeaders pr (strBytes (toString st)) reason [] api f, reads⟩
+        pure ⟨2, id, responseHeaders pr (strBytes (toString st)) reason [] api f, reads, nb⟩
       | _ => none
     else none
   | _ => none
@@ -132,7 +139,8 @@ def showMsg (got : List Frame) (i : Nat) (m : Msg) : String :=
   let mine := got.filter fun f => f.key == (m.id.take 8, m.mt)
   let hs := ((mine.filter fun f => !f.isData).map showHdr).mergeSort (fun a b => decide (a ≤ b))
   let ds := (mine.filter Frame.isData).map showData
-  let rets := (bodyRun m.mt (m.id.take 8) 0 m.reads).1.map showRet
+  -- a request's http.NoBody is not wrapped: the consumer reads it directly
+  let rets := (if m.noBody && m.mt == 1 then m.reads else (bodyRun m.mt (m.id.take 8) 0 m.reads).1).map showRet
   s!"m{i}=" ++ joinOr "," hs ++ "|" ++ joinOr "," ds ++ "|" ++ joinOr "," rets
 
 def logOp (toks : List String) : String :=
@@ -140,7 +148,8 @@ def logOp (toks : List String) : String :=
   | none => "bad-op"
   | some ms =>
     if ms.any (fun m => !idOk m.id) then "panic" else     -- newFrame: id[:8]
-    let frames := (ms.map fun m => messageFrames m.mt m.id m.hdrs m.reads).flatten
+    let frames := (ms.map fun m =>
+      if m.mt == 1 then requestFrames m.id m.hdrs m.noBody m.reads else messageFrames m.mt m.id m.hdrs m.reads).flatten
     let r := readAll (encodeAll frames)
     let idx := List.range ms.length
     " ".intercalate ((idx.zip ms).map (fun p => showMsg r.1 p.1 p.2) ++
